@@ -142,6 +142,22 @@ def batch_loops_rule(ctx, rule, p, specs):
                                 if isinstance(base, ast.Name) and (base.id in outer or base.id in params) and lvname not in names_in_first \
                                         and not (names_in_first & enclosing and lvname in {y.id for y in ast.walk(idx) if isinstance(y, ast.Name)}):
                                     problems.append(f"store into `{base.id}` is not indexed by `{lvname}` in its leading axis")
+        # the same for the loops nested in one iteration (the frequencies of one point): a local set ahead of the inner loop and
+        # reassigned inside it after being read is handed from one frequency to the next (a warm start, a running state)
+        for k_, il in enumerate(lp.body):
+            if not isinstance(il, ast.For):
+                continue
+            before = set()
+            for st in lp.body[:k_]:
+                for n in ast.walk(st):
+                    if isinstance(n, ast.Assign):
+                        for t in n.targets:
+                            if isinstance(t, ast.Name):
+                                before.add(t.id)
+            stored = {t.id for n in ast.walk(il) if isinstance(n, ast.Assign) for t in n.targets if isinstance(t, ast.Name)}
+            loaded = {n.id for st in il.body for n in ast.walk(st) if isinstance(n, ast.Name) and isinstance(n.ctx, ast.Load)}
+            for nm in sorted(before & stored & loaded):
+                problems.append(f"`{nm}` set ahead of the inner loop is read and reassigned inside it (carried from one inner iteration to the next)")
         # shared buffers handed to mutating callees
         for c in [n for st in lp.body for n in ast.walk(st) if isinstance(n, ast.Call)]:
             r = p.resolve_expr(f.module, c.func) if isinstance(c.func, (ast.Name, ast.Attribute)) else None
